@@ -84,6 +84,7 @@ def make_packages(ctx):
     pks += detgen.hand_new_pkgs() + detgen.hand_map_pkgs(rng)
     for cmd, force in shaped:
         pks.append(detgen.GENS[cmd](rng, force))
+    pks.append(detgen.hand_rest_same_name_pkg())   # rest: struct parameters of one bare name from two packages
     pks += detgen.hand_map_tag_pkgs()      # map: tags / `-` / nested tags on field names shared between the types, tagged types first and last
     n = ctx.n(60, 360) - len(pks)
     for _ in range(max(0, n)):
